@@ -4,7 +4,8 @@
    Every session method is transcribed as a small program [prog] over atomic
    actions on the shared state of a p9p.session:
 
-     Load f | Reserve f | LoadAndDelete f | Delete f     sess.refs (a sync.Map, linearizable)
+     Load f | Reserve f | LoadAndDelete f | Delete f
+     | CompareAndDelete f p                              sess.refs (a sync.Map, linearizable)
      Lock p | Unlock p                                   the sync.Mutex embedded in SFid p
      ReadSF p | WriteSF p g                              fields Ent/File/Mode of SFid p
      Fs c                                                a call into the FileSys/Dirent/File (two steps:
@@ -62,6 +63,7 @@ Inductive prog :=
 | Reserve (f : N) (k : option N -> prog)
 | LoadAndDelete (f : N) (k : option N -> prog)
 | Delete (f : N) (k : prog)
+| CompareAndDelete (f p : N) (k : bool -> prog)
 | Lock (p : N) (k : prog)
 | Unlock (p : N) (k : prog)
 | ReadSF (p : N) (k : sfid -> prog)
@@ -92,20 +94,24 @@ Definition new_ref (f : N) (k : N + N -> prog) : prog :=
   if f =? NOFID then k (inl R_UNKNOWNFID) else
   Reserve f (fun o => match o with None => k (inl R_DUPFID) | Some p => k (inr p) end).
 
-(* ---- delRef (L159-175) + delRefAction (L187-197) ---- *)
+(* ---- delRef + delRefAction.  Since the fix "Clunk/Remove made the fid reusable ..." delRef looks the
+   SFid up, LOCKS it, and only then unbinds the fid (CompareAndDelete: the fid may no longer name this SFid
+   when another Clunk/Remove got there first or the reservation waited for was rolled back) ---- *)
 Definition del_ref (f : N) (remove : bool) (k : N -> prog) : prog :=
-  LoadAndDelete f (fun o =>
+  Load f (fun o =>
     match o with
     | None => k R_UNKNOWNFID
     | Some q =>
-        Lock q (ReadSF q (fun s =>
-          match s_ent s with
-          | None => Unlock q (k R_OK)
-          | Some e =>
-              Fs (call (if remove then K_REMOVE else K_CLUNK) (Some q) (e_id e)) (fun fr =>
-                WriteSF q (fun s => {| s_ent := None; s_file := s_file s; s_mode := s_mode s |})
-                  (Unlock q (k (cls_of (fr_out fr)))))
-          end))
+        Lock q (CompareAndDelete f q (fun removed =>
+          if negb removed then Unlock q (k R_UNKNOWNFID) else
+          ReadSF q (fun s =>
+            match s_ent s with
+            | None => Unlock q (k R_OK)               (* an auth fid: no entry to release *)
+            | Some e =>
+                Fs (call (if remove then K_REMOVE else K_CLUNK) (Some q) (e_id e)) (fun fr =>
+                  WriteSF q (fun s => {| s_ent := None; s_file := s_file s; s_mode := s_mode s |})
+                    (Unlock q (k (cls_of (fr_out fr)))))
+            end)))
     end).
 
 Definition prog_clunk (f : N) : prog := del_ref f false (fun c => ret c 0).
@@ -433,6 +439,10 @@ Definition step (s : state) (i : nat) : option state :=
       | Delete f k =>
           Some {| refs := delete f (refs s); heap := heap s; owner := owner s; nextp := nextp s;
                   threads := <[i := upd th k (1 :: nil)]> (threads s) |}
+      | CompareAndDelete f p k =>
+          let hit := match refs s !! f with Some q => q =? p | None => false end in
+          Some {| refs := if hit then delete f (refs s) else refs s; heap := heap s; owner := owner s; nextp := nextp s;
+                  threads := <[i := upd th (k hit) ((if hit then 1 else 0) :: nil)]> (threads s) |}
       | Lock p k =>
           match owner s !! p with
           | Some _ => None
